@@ -217,3 +217,141 @@ Definition dist_make (w : wexp) (m : meta) : list (N * sink_call) := map (fun i 
 Definition dist_write (w : wexp) (m : meta) (b : bytes) : list (N * sink_call) := map (fun i => (i, SWrite b)) (route w m).
 Definition dist_direct (w : wexp) (b : bytes) : list (N * sink_call) :=
   map (fun i => (i, SMake0)) (asked0 w) ++ map (fun i => (i, SWrite b)) (route0 w).
+
+(** ** Sink faults: what the writers do when a sink does not simply accept everything
+
+    A recording sink's writer instance (one per [make_writer_for]) answers its successive [write] /
+    [flush] calls from a script; an exhausted script means "accepts everything".  The sinks implement
+    only [write] and [flush], so [write_all] on them is std's default loop:
+    {v
+      while !buf.is_empty() {
+          match self.write(buf) {
+              Ok(0) => return Err(WriteZero),  Ok(n) => buf = &buf[n..],
+              Err(ref e) if e.is_interrupted() => {}   Err(e) => return Err(e),
+          }
+      }
+    v}
+    so a sink that accepts fewer bytes than offered is re-offered the rest: "the whole record in a
+    single write" is ONE [write_all] whose first [write] carries the whole record; every later [write] of
+    it carries the suffix not yet accepted ([sink_write_all_offers], [sink_write_all_delivers] in
+    WriterProofs.v). *)
+Inductive resp :=
+| RsAccept (n : N)     (* Ok(min n |buf|); n = 0 is Ok(0) *)
+| RsInterrupted        (* Err(ErrorKind::Interrupted) *)
+| RsFail               (* Err(any other kind) *)
+| RsPanic.             (* does not return: the call unwinds *)
+Definition script := list resp.
+
+Inductive wres := WOk | WErr | WUnwind.
+
+(** One call on a recording writer instance, as the sink's log shows it. *)
+Inductive scall :=
+| CWrite (offered : bytes) (r : resp)
+| CFlush (r : resp).
+
+Definition blen (b : bytes) : N := N.of_nat (length b).
+
+Fixpoint sink_write_all (s : script) (buf : bytes) {struct s} : list scall * wres :=
+  match buf with
+  | [] => ([], WOk)
+  | _ :: _ =>
+      match s with
+      | [] => ([CWrite buf (RsAccept (blen buf))], WOk)
+      | RsAccept n :: s' =>
+          if n =? 0 then ([CWrite buf (RsAccept 0)], WErr)                 (* WriteZero *)
+          else if blen buf <=? n then ([CWrite buf (RsAccept n)], WOk)
+          else let (c, r) := sink_write_all s' (skipn (N.to_nat n) buf) in (CWrite buf (RsAccept n) :: c, r)
+      | RsInterrupted :: s' => let (c, r) := sink_write_all s' buf in (CWrite buf RsInterrupted :: c, r)
+      | RsFail :: _ => ([CWrite buf RsFail], WErr)
+      | RsPanic :: _ => ([CWrite buf RsPanic], WUnwind)
+      end
+  end.
+
+Definition res_of_resp (r : resp) : wres :=
+  match r with RsAccept _ => WOk | RsInterrupted | RsFail => WErr | RsPanic => WUnwind end.
+
+(** a single [write] / [flush] (what [Tee::write], [Tee::write_vectored], [Tee::flush] forward) *)
+Definition sink_write_once (s : script) (buf : bytes) : list scall * wres :=
+  let r := match s with [] => RsAccept (blen buf) | r :: _ => r end in ([CWrite buf r], res_of_resp r).
+Definition sink_flush (s : script) : list scall * wres :=
+  let r := match s with [] => RsAccept 0 | r :: _ => r end in ([CFlush r], res_of_resp r).
+
+Inductive wmethod := MWriteAll | MWrite | MFlush.
+Definition leaf_of (mt : wmethod) (buf : bytes) : script -> list scall * wres :=
+  match mt with
+  | MWriteAll => fun s => sink_write_all s buf
+  | MWrite => fun s => sink_write_once s buf
+  | MFlush => sink_flush
+  end.
+
+(** One [io::Write] method forwarded through a writer value.  [leaf] is what the method does on a
+    recording writer given its script; [plan k] is the script of the k-th recording writer met, left to
+    right.  [Box], [EitherWriter] and [MutexGuardWriter] forward to the one writer inside; [io::Sink]
+    accepts; and [Tee] (every method goes through [impl_tee!]):
+    {v
+      let res_a = self.a.f(args);  let res_b = self.b.f(args);  (res_a?, res_b?)
+    v}
+    runs BOTH sides and only then propagates an error ([both = true]).  [both = false] is the plausible
+    "simplification" [(self.a.f(args)?, self.b.f(args)?)], which returns before [b] is called: kept as a
+    variant so that which of the two the tree under check has is read from the source
+    (TVGen.Gen_fmtbuf.tee_runs_both) and the difference is a theorem (WriterProofs.v).
+    A panic in [a] unwinds through both forms: [b] is not reached. *)
+Fixpoint tee_apply (both : bool) (leaf : script -> list scall * wres) (x : wr) (plan : nat -> script) (k : nat)
+  : list (N * list scall) * wres * nat :=
+  match x with
+  | RSink i => let (c, r) := leaf (plan k) in ([(i, c)], r, S k)
+  | RIoSink => ([], WOk, k)
+  | RA y | RB y | RBox y => tee_apply both leaf y plan k
+  | RTee a b =>
+      let '(ca, ra, k1) := tee_apply both leaf a plan k in
+      match ra with
+      | WUnwind => (ca, WUnwind, k1)
+      | WErr =>
+          if both then
+            let '(cb, rb, k2) := tee_apply both leaf b plan k1 in
+            (ca ++ cb, match rb with WUnwind => WUnwind | _ => WErr end, k2)
+          else (ca, WErr, k1)
+      | WOk => let '(cb, rb, k2) := tee_apply both leaf b plan k1 in (ca ++ cb, rb, k2)
+      end
+  end.
+
+(** What the k-th, (k+1)-th, ... recording writers of the target list [ts] see when each is given the
+    method with its own script — stopping after one that unwinds — and the combined result. *)
+Fixpoint spec_calls (leaf : script -> list scall * wres) (plan : nat -> script) (k : nat) (ts : list N) : list (N * list scall) :=
+  match ts with
+  | [] => []
+  | i :: r => (i, fst (leaf (plan k))) ::
+              match snd (leaf (plan k)) with WUnwind => [] | _ => spec_calls leaf plan (S k) r end
+  end.
+
+Fixpoint spec_res (leaf : script -> list scall * wres) (plan : nat -> script) (k : nat) (ts : list N) : wres :=
+  match ts with
+  | [] => WOk
+  | _ :: r =>
+      match snd (leaf (plan k)) with
+      | WUnwind => WUnwind
+      | WErr => match spec_res leaf plan (S k) r with WUnwind => WUnwind | _ => WErr end
+      | WOk => spec_res leaf plan (S k) r
+      end
+  end.
+
+Definition planf (l : list script) : nat -> script := fun j => nth j l [].
+
+(** The bytes a sink accepted in one call. *)
+Definition accepted (c : scall) : bytes :=
+  match c with CWrite off (RsAccept n) => firstn (N.to_nat n) off | _ => [] end.
+Definition offered_of (c : scall) : bytes := match c with CWrite off _ => off | CFlush _ => [] end.
+
+(** Sink-level log entries of the fault-aware pipeline. *)
+Inductive fentry :=
+| FMake (m : meta)
+| FMake0
+| FCall (c : scall).
+
+Definition flat_calls (cs : list (N * list scall)) : list (N * fentry) :=
+  flat_map (fun ic => map (fun c => (fst ic, FCall c)) (snd ic)) cs.
+
+(** [w.make_writer()] followed by one method call on the returned value (the harness's [direct] op). *)
+Definition dist_direct_f (both : bool) (w : wexp) (mt : wmethod) (b : bytes) (plan : list script) : list (N * fentry) :=
+  map (fun i => (i, FMake0)) (asked0 w)
+  ++ flat_calls (fst (fst (tee_apply both (leaf_of mt b) (fst (make0 w)) (planf plan) 0%nat))).
